@@ -200,8 +200,8 @@ def _column_selector(ix, trace):
     u = unfn(ix)
     if u is None:
         return ix.is_const() if isinstance(ix, F.Rat) else False
-    if u[0].startswith("ax") and u[0][2:].isdigit():
-        return True           # a selector on a later axis: the rows are untouched
+    if u[0].startswith("ax") and (u[0][2:].isdigit() or u[0] == "axL"):
+        return True           # a selector on a later axis (axL: the last axis - of a vector, its only one): the rows are untouched
     if u[0] == "tuple" and u[1] and not isinstance(u[1][0], str) and sym_name(u[1][0]) == ":":
         return True
     return u[0].startswith("cmp:") or u[0] in ("slice", "invert", "not", "mask:BitAnd", "mask:BitOr")
